@@ -3208,6 +3208,13 @@ def emit(ast: Program) -> str:
     if globals_:
         parts.append("\n".join(globals_) + "\n\n")
     if function_sections:
+        # a helper may call one that is defined further down: declare them all first
+        functions = list(getattr(ast, "functions", []))
+        if len(functions) > 1:
+            for fn in functions:
+                params_src = ", ".join(f"{ptype} {name}" for name, ptype in fn.params)
+                parts.append(f"{fn.return_type} {fn.name}({params_src});\n")
+            parts.append("\n")
         parts.append("".join(function_sections))
     if ultrasonic_sections:
         parts.append("".join(ultrasonic_sections))
